@@ -228,7 +228,7 @@ def nested_payload(name, token):
     return raw
 
 
-def build_archive(kind, members, rng):
+def build_archive(kind, members, rng, layout=None):
     """members: list of dicts {name, data|None, tartype?, link?, lie?, attr?}"""
     if kind == "zip":
         b = io.BytesIO()
@@ -270,7 +270,7 @@ def build_archive(kind, members, rng):
     # 7z
     files = [{"name": m["name"], "data": m.get("data") if not m.get("lie") else None, "attr": m.get("attr")} for m in members]
     lie = [i for i, m in enumerate(members) if m.get("lie")]
-    return write_7z(files, layout=rng.choice(["solid", "per-file"]), lie_stream=lie)
+    return write_7z(files, layout=layout or rng.choice(["solid", "per-file"]), lie_stream=lie)
 
 
 HISTORIES = [["exhaust"], ["next", "close"], ["next", "next", "drop"], ["close"], ["drop"], ["throw_exc"],
@@ -288,8 +288,9 @@ def make_cases(ctx, W):
     def add(kind, members, actions, limits=None, count=False, label=""):
         cid[0] += 1
         i = cid[0]
+        layout = rng.choice(["solid", "solid", "per-file"]) if kind == "7z" else None
         try:
-            data = build_archive(kind, members, rng)
+            data = build_archive(kind, members, rng, layout)
         except Exception as e:  # a name the container cannot hold (e.g. NUL, surrogates in zip)
             ctx.count("unbuildable:" + kind)
             return None
@@ -298,7 +299,7 @@ def make_cases(ctx, W):
         if limits:
             c["limits"] = limits
         cases.append(c)
-        meta[i] = {"kind": kind, "members": members, "actions": actions, "label": label, "limits": limits}
+        meta[i] = {"kind": kind, "members": members, "actions": actions, "label": label, "limits": limits, "layout": layout}
         return i
 
     def member(cls, name, idx, **kw):
@@ -512,7 +513,10 @@ def judge(ctx, c, m, res, token, roots, router_info):
     # skip rules: the token of a member that must be skipped appears in no result
     # (a 7z entry listed without its own stream shifts the stream->name assignment: attribution by token is
     #  only meaningful when every stream-carrying entry has its own data)
-    for mm in ([] if any(x.get("lie") for x in m["members"]) else m["members"]):
+    # (likewise a multi-folder 7z: which bytes a member receives there is property C10's subject — a known defect
+    #  hands every folder the first pack stream — so content attribution is judged on single-folder archives)
+    attributable = not any(x.get("lie") for x in m["members"]) and m.get("layout") in (None, "solid")
+    for mm in (m["members"] if attributable else []):
         nm = mm["name"]
         bn = os.path.basename(nm)
         if mm.get("data") is None or mm.get("tartype") or mm.get("lie"):
